@@ -20,6 +20,8 @@ pub struct IrProgram<'m> {
 enum Root {
     Local(usize, u32),
     Global(u32),
+    /// a function-local `static`: one object per evaluation, keyed by the variable id
+    Static(u32),
     Temp(usize, usize),
 }
 
@@ -46,6 +48,9 @@ enum Flow {
 struct Interp<'m> {
     m: &'m ir::Module,
     globals: HashMap<u32, Value>,
+    /// function-local statics that have been initialised in this evaluation (S9 applied to locals: initialised when the
+    /// definition is first executed, kept from one call of the function to the next)
+    statics: HashMap<u32, Value>,
     frames: Vec<Frame>,
     fuel: u64,
     trace: Vec<&'static str>,
@@ -206,7 +211,7 @@ impl<'m> IrProgram<'m> {
 
     /// values of the static globals after initialisation (S9), in declaration order
     pub fn initial_globals(&self) -> R<Vec<Value>> {
-        let mut it = Interp { m: self.m, globals: HashMap::new(), frames: vec![Frame::default()], fuel: 10_000, trace: Vec::new() };
+        let mut it = Interp { m: self.m, globals: HashMap::new(), statics: HashMap::new(), frames: vec![Frame::default()], fuel: 10_000, trace: Vec::new() };
         let mut out = Vec::new();
         for g in &self.static_globals {
             it.init_global(*g)?;
@@ -242,7 +247,7 @@ impl<'m> IrProgram<'m> {
 
     /// Evaluate function `idx` on `args` (one value per parameter; values for `out` parameters are ignored).
     pub fn run(&self, idx: usize, args: &[Value], fuel: u64) -> R<Outcome> {
-        let mut it = Interp { m: self.m, globals: HashMap::new(), frames: vec![Frame::default()], fuel, trace: Vec::new() };
+        let mut it = Interp { m: self.m, globals: HashMap::new(), statics: HashMap::new(), frames: vec![Frame::default()], fuel, trace: Vec::new() };
         // S9: static globals are initialised once per evaluation, in declaration order
         for g in &self.static_globals {
             it.init_global(*g)?;
@@ -358,6 +363,7 @@ impl<'m> Interp<'m> {
         match r {
             Root::Local(f, id) => self.frames[*f].locals.get(id).ok_or_else(|| Stop::Stuck("read of an undeclared local".into())),
             Root::Global(id) => self.globals.get(id).ok_or_else(|| Stop::Stuck("read of an uninitialised global".into())),
+            Root::Static(id) => self.statics.get(id).ok_or_else(|| Stop::Stuck("read of an uninitialised static local".into())),
             Root::Temp(f, i) => Ok(&self.frames[*f].temps[*i]),
         }
     }
@@ -370,6 +376,7 @@ impl<'m> Interp<'m> {
         let root = match &p.root {
             Root::Local(f, id) => self.frames[*f].locals.get_mut(id).ok_or_else(|| Stop::Stuck("write of an undeclared local".into()))?,
             Root::Global(id) => self.globals.get_mut(id).ok_or_else(|| Stop::Stuck("write of an uninitialised global".into()))?,
+            Root::Static(id) => self.statics.get_mut(id).ok_or_else(|| Stop::Stuck("write of an uninitialised static local".into()))?,
             Root::Temp(f, i) => &mut self.frames[*f].temps[*i],
         };
         write_path(root, &p.path, v)
@@ -387,6 +394,12 @@ impl<'m> Interp<'m> {
         use ir::Expression as E;
         match e {
             E::Variable(id) => {
+                if self.m.variable_registry.get_local_variable(*id).storage_class == ir::LocalStorage::Static {
+                    if !self.statics.contains_key(&id.0) {
+                        return Err(Stop::Stuck(format!("static local {} used before its definition", self.m.variable_registry.get_local_variable(*id).name.node)));
+                    }
+                    return Ok(Place { root: Root::Static(id.0), path: Vec::new() });
+                }
                 self.check_local(*id)?;
                 Ok(Place { root: Root::Local(self.cur(), id.0), path: Vec::new() })
             }
@@ -461,9 +474,6 @@ impl<'m> Interp<'m> {
         let f = self.cur();
         if !self.frames[f].locals.contains_key(&id.0) {
             let def = self.m.variable_registry.get_local_variable(id);
-            if def.storage_class == ir::LocalStorage::Static {
-                return Err(Stop::Unsupported("static local".into()));
-            }
             return Err(Stop::Stuck(format!("local {} used before its definition", def.name.node)));
         }
         Ok(())
@@ -739,10 +749,18 @@ impl<'m> Interp<'m> {
 
     fn vardef(&mut self, d: &ir::VarDef) -> R<()> {
         let def = self.m.variable_registry.get_local_variable(d.id);
-        if def.storage_class == ir::LocalStorage::Static {
-            return Err(Stop::Unsupported("static local".into()));
-        }
         let t = ty_of(self.m, def.type_id)?;
+        if def.storage_class == ir::LocalStorage::Static {
+            // initialised the first time the definition is executed, then kept for the rest of the evaluation
+            if !self.statics.contains_key(&d.id.0) {
+                let v = match &d.init {
+                    None => default_value(self.m, &t)?,
+                    Some(i) => self.initializer(&t, i)?,
+                };
+                self.statics.insert(d.id.0, v);
+            }
+            return Ok(());
+        }
         let v = match &d.init {
             None => default_value(self.m, &t)?,
             Some(i) => self.initializer(&t, i)?,
